@@ -166,34 +166,31 @@ def run_case(case, rng):
                            lambda: f"b={b!r} a={a!r}: {mean.tolist()!r} want {want.tolist()!r}", **facts)
                 # every successor is the posterior of some observation with the right total probability
                 # (posteriors are matched by tolerance, never by rounded keys)
-                groups = []          # [vector, probability]
+                # Matching is by connected clusters of mutually close vectors over BOTH sides (closeness is not transitive, so a greedy
+                # grouping of posteriors that lie ~1e-13 apart depends on the order they are met in): per cluster, equal mass.
+                groups = []          # [vector, probability] reference posteriors
                 for o in emitted:
                     post, po = B.posterior(sp, b, a, o)
                     if po > 0:
-                        vec = np.array([post.get(s, 0.0) for s in S])
-                        for g_ in groups:
-                            if np.allclose(g_[0], vec, rtol=1e-9, atol=1e-13):
-                                g_[1] += po
-                                break
-                        else:
-                            groups.append([vec, po])
-                got = []
-                for nb, p in items:
-                    if p > 0:
-                        vec = np.array(nb.probs, dtype=float)
-                        for g_ in got:
-                            if np.allclose(g_[0], vec, rtol=1e-9, atol=1e-13):
-                                g_[1] += p
-                                break
-                        else:
-                            got.append([vec, p])
-                ok = len(got) == len(groups)
-                if ok:
-                    for vec, p in got:
-                        m = [g_ for g_ in groups if np.allclose(g_[0], vec, rtol=1e-9, atol=1e-13)]
-                        if len(m) != 1 or not _close(m[0][1], p, 1e-10):
-                            ok = False
-                            break
+                        groups.append([np.array([post.get(s, 0.0) for s in S]), po])
+                got = [[np.array(nb.probs, dtype=float), p] for nb, p in items if p > 0]
+                nodes_ = [(v_, p_, 0) for v_, p_ in groups] + [(v_, p_, 1) for v_, p_ in got]
+                parent_ = list(range(len(nodes_)))
+
+                def find_(x):
+                    while parent_[x] != x:
+                        parent_[x] = parent_[parent_[x]]
+                        x = parent_[x]
+                    return x
+                for x in range(len(nodes_)):
+                    for y in range(x + 1, len(nodes_)):
+                        if np.allclose(nodes_[x][0], nodes_[y][0], rtol=1e-9, atol=1e-13):
+                            parent_[find_(x)] = find_(y)
+                mass_ = {}
+                for x, (v_, p_, side_) in enumerate(nodes_):
+                    m_ = mass_.setdefault(find_(x), [0.0, 0.0])
+                    m_[side_] += p_
+                ok = all(_close(m_[0], m_[1], 1e-10) for m_ in mass_.values())
                 case.check(ok, "beliefmdp-successors!=posteriors-weighted-by-observation-probability",
                            lambda: f"b={b!r} a={a!r}: {[(v.tolist(), p) for v, p in got]!r} want {[(v.tolist(), p) for v, p in groups]!r}", **facts)
             r = case.call("BeliefMDP.reward", bm.reward, bel, a, None, facts=facts)
